@@ -133,6 +133,7 @@ type bias struct {
 	pLongURL   int
 	pMultiLine int
 	pMultiField int
+	thinks     []int64
 }
 
 func defaultBias() bias {
@@ -214,6 +215,8 @@ func (g *gen) plan(b *bias, resIdx, nRes int, vary string) RespPlan {
 	}
 	if g.chance(b.pNoCache) {
 		cc = append(cc, "no-cache")
+	} else if g.chance(b.pNoCacheQ) && g.chance(25) {
+		cc = append(cc, pick(g, `no-cache="ETag"`, `no-cache="ETag, Last-Modified"`, `no-cache="Last-Modified"`))
 	} else if g.chance(b.pNoCacheQ) {
 		cc = append(cc, `no-cache="Set-Cookie, X-Secret"`)
 		p.Extra = append(p.Extra, [2]string{"Set-Cookie", "sid=secret$SID"}, [2]string{"X-Secret", "s$SID"})
@@ -387,6 +390,9 @@ func (g *gen) selHeaders(res *Resource, b *bias) [][2]string {
 }
 
 func (g *gen) think(b *bias, res *Resource) int64 {
+	if len(b.thinks) > 0 {
+		return g.dur(pick(g, b.thinks...))
+	}
 	if !g.chance(b.thinkFocus) {
 		return g.dur(pick(g, int64(0), 0, 1, 2, 10, 100, 3600, 86400, 1<<31))
 	}
@@ -641,7 +647,20 @@ var profiles = map[string]func(b *bias, g *gen){
 		b.pSWR, b.pSIE, b.pValidator = 30, 20, 85
 		b.lifetimes = []int64{0, 1, 2, 5, 60}
 	},
+	"swrvary": func(b *bias, g *gen) {
+		// C08: a variant stored by another request while a background revalidation waits for the origin
+		b.pSWR, b.pValidator, b.pLatency, b.pVary, b.pVaryFlip, b.pVaryStar = 80, 90, 70, 100, 0, 0
+		b.lifetimes = []int64{2, 2, 300, 300}
+		b.freshKinds = []int{10, 0, 0, 0}
+		b.pNoCache, b.pNoStore, b.pMustReval, b.pReqCC, b.pNoCacheQ, b.pErrStatus = 0, 0, 0, 0, 0, 0
+		b.resources, b.ops, b.plans = [2]int{1, 1}, [2]int{5, 10}, [2]int{2, 3}
+		b.thinkFocus, b.pSelHdr, b.pRespell = 0, 100, 10
+		b.thinks = []int64{0, 1, 1, 3, 3, 6}
+		b.backends = []string{"mem", "mem", "fs"}
+		b.swrTimeouts = []int64{-1, int64(60 * time.Second)}
+	},
 	"swr": func(b *bias, g *gen) {
+		b.pNoCacheQ = 20
 		b.pSWR, b.pValidator, b.pLatency, b.pNetFault = 85, 80, 70, 20
 		b.lifetimes = []int64{1, 2, 5}
 		b.freshKinds = []int{9, 1, 0, 0}
@@ -738,6 +757,16 @@ func Gen(profile string, seed uint64, thorough bool) *Scenario {
 		}
 	}
 	scn := g.base(profile, seed, &b)
+	if profile == "sie" {
+		for i := range scn.Resources {
+			for k := range scn.Resources[i].Plans {
+				p := &scn.Resources[i].Plans[k]
+				if (p.Status >= 500 || p.Fault == "err") && g.chance(50) {
+					p.LatNs = g.dur(pick(g, int64(1), 2, 3, 5, 8)) // a failure that takes its time
+				}
+			}
+		}
+	}
 	if profile == "swr" || profile == "sie" {
 		// the origin withholds every background answer: latency on all plans
 		for i := range scn.Resources {
